@@ -384,7 +384,13 @@ def check_optstrings(ctx):
              ("highlight_code_blocks", "0", False), ("linkify_fuzzy_links", "off", False), ("dmath_allow_labels", "no", False),
              ("all_links_external", "1", True), ("title_to_header", "true", True), ("enable_checkboxes", "on", True),
              ("suppress_warnings", "myst.header,myst.xref_missing", ["myst.header", "myst.xref_missing"]),
-             ("heading_slug_func", PATHS[1], PATHS[1]), ("commonmark_only", "yes", True)]
+             ("heading_slug_func", PATHS[1], PATHS[1]), ("commonmark_only", "yes", True),
+             # white space around the items of a comma-separated value (command line / docutils.conf spelling)
+             ("suppress_warnings", "myst.header, myst.xref_missing", ["myst.header", "myst.xref_missing"]),
+             ("suppress_warnings", "myst.header,\nmyst.xref_missing\n", ["myst.header", "myst.xref_missing"]),
+             ("enable_extensions", "deflist, tasklist", {"deflist", "tasklist"}), ("disable_syntax", "table , emphasis", ["table", "emphasis"]),
+             ("url_schemes", "http, ftp", {"http": None, "ftp": None}), ("fence_as_directive", "mermaid, dot", {"mermaid", "dot"}),
+             ("number_code_blocks", "python, c", ["python", "c"])]
     n = 0
     for name, text, val in cases:
         n += 1
